@@ -22,6 +22,11 @@ handling: Loader.restore_placements removes an instance found under more
 than one server from all of them and deletes all its records (the action
 loop ranges over the whole entry, unfiltered), entries with one server are
 left alone.
+Added by the seeding rounds - C10.2 shares the start-up domain clause of
+C09.1; C10.3 the per-server helper reports every instance it put back on every
+exit a placement can reach, has_apps is a snapshot taken before the removal,
+and a recorded identity (0 included) is taken back unconditionally (shared
+with C11.4).
 Does NOT decide that a restarted master completes start-up and republishes a
 placement equal to its model (behaviour of a run; see C09/C11).
 """
